@@ -188,6 +188,10 @@ struct ReplayFile<S> {
     tape: Vec<u32>,
     log_hash: String,
     log: Vec<String>,
+    /// the tape is to be regenerated from (seed, index) — used for cases that killed the worker
+    /// process before a tape could be recorded
+    #[serde(default)]
+    regenerate_tape: bool,
 }
 
 const DEFAULT_SEED: u64 = 20260924;
@@ -386,7 +390,14 @@ fn batch<S: Sim>(b: &BatchArgs) {
     let replay_dir = verif_dir().join("replays").join(&b.property);
     let mut index = b.offset;
     let mut shrink_total: u64 = 400_000;
+    // the index of the case being executed, so that the coordinator can name the case that made
+    // this process die (abort on allocation failure, stack overflow, SIGSEGV …)
+    let marker = std::fs::OpenOptions::new().create(true).write(true).truncate(true).open(b.out.with_extension("cur")).ok();
     while index < b.runs {
+        if let Some(m) = &marker {
+            use std::os::unix::fs::FileExt;
+            let _ = m.write_at(&index.to_le_bytes(), 0);
+        }
         let (script, tape_rng) = one_case::<S>(b.seed, index, tier, &b.property);
         let mut tape = Tape::generate(tape_rng);
         let keep = p.samples.len() < 2 && index % 7 == b.offset % 7;
@@ -488,6 +499,7 @@ fn batch<S: Sim>(b: &BatchArgs) {
                 tape: t2,
                 log_hash: format!("{:016x}", fin.log.hash),
                 log: fin.log.lines.clone(),
+                regenerate_tape: false,
             };
             std::fs::write(&path, serde_json::to_vec_pretty(&rf).unwrap()).unwrap_or_else(|e| harness_error(&format!("cannot write replay: {e}")));
             seen_classes.insert(key, p.violations.len());
@@ -519,7 +531,14 @@ fn replay<S: Sim>(a: &[String]) -> ! {
     let file = arg_val(a, "--file").or_else(|| a.first().cloned()).unwrap_or_else(|| harness_error("replay: file missing"));
     let data = std::fs::read(&file).unwrap_or_else(|e| harness_error(&format!("cannot read {file}: {e}")));
     let rf: ReplayFile<S::Script> = serde_json::from_slice(&data).unwrap_or_else(|e| harness_error(&format!("cannot parse {file}: {e}")));
-    let mut tp = Tape::replay(rf.tape.clone());
+    let mut tp = if rf.regenerate_tape {
+        let tier = Tier::parse(&rf.tier);
+        let (_, tape_rng) = one_case::<S>(rf.seed, rf.index, tier, &rf.property);
+        println!("(re-executing a case that killed its worker process: if it does so again, this process dies here — that is the reproduction)");
+        Tape::generate(tape_rng)
+    } else {
+        Tape::replay(rf.tape.clone())
+    };
     let out = run_isolated::<S>(&rf.script, &mut tp, true);
     for l in &out.log.lines {
         println!("{l}");
@@ -595,6 +614,7 @@ fn check<S: Sim>(a: &[String]) -> ! {
     let mut children = Vec::new();
     let spawn = |offset: u64, stride: u64, runs: u64, out: &Path, det_k: u64, no_shrink: bool| {
         let mut c = std::process::Command::new(&exe);
+        c.env("RUST_BACKTRACE", "0");
         c.args(&sim_arg)
             .arg("batch")
             .args(["--property", &property, "--tier", tier.as_str()])
@@ -618,15 +638,74 @@ fn check<S: Sim>(a: &[String]) -> ! {
     let det_child = spawn(0, 1, det_k, &det_out, det_k, true);
     children.push((det_child, det_out.clone()));
     let mut parts: Vec<Partial> = Vec::new();
-    for (mut c, out) in children {
+    let mut crashes: Vec<FoundViolation> = Vec::new();
+    let n_children = children.len();
+    let mut queue: std::collections::VecDeque<(std::process::Child, PathBuf, u64, bool)> =
+        children.into_iter().enumerate().map(|(i, (c, o))| (c, o, if i + 1 == n_children { 1 } else { workers }, i + 1 == n_children)).collect();
+    let mut det_part: Option<Partial> = None;
+    let mut respawns = 0;
+    while let Some((mut c, out, stride, is_det)) = queue.pop_front() {
         let st = c.wait().unwrap_or_else(|e| harness_error(&format!("{e}")));
-        if !st.success() {
-            harness_error(&format!("worker process failed: {st}"));
+        if st.success() {
+            let data = std::fs::read(&out).unwrap_or_else(|e| harness_error(&format!("{e}")));
+            let p: Partial = serde_json::from_slice(&data).unwrap_or_else(|e| harness_error(&format!("{e}")));
+            if is_det { det_part = Some(p) } else { parts.push(p) }
+            continue;
         }
-        let data = std::fs::read(&out).unwrap_or_else(|e| harness_error(&format!("{e}")));
-        parts.push(serde_json::from_slice(&data).unwrap_or_else(|e| harness_error(&format!("{e}"))));
+        if st.code() == Some(2) {
+            harness_error(&format!("worker process reported a harness error: {st}"));
+        }
+        // The process died (abort, signal): the code under test took the whole process down.
+        // Name the case, record it as a violation, carry on after it.
+        let idx = std::fs::read(out.with_extension("cur")).ok().filter(|b| b.len() >= 8).map(|b| u64::from_le_bytes(b[..8].try_into().unwrap()));
+        let Some(idx) = idx else { harness_error(&format!("worker process died ({st}) before running a case")) };
+        if !is_det {
+            let (script, _) = one_case::<S>(seed, idx, tier, &property);
+            std::fs::create_dir_all(&rdir).ok();
+            let path = rdir.join(format!("{}-process-crash-{}-{}.json", S::name(), seed, idx));
+            let rf = ReplayFile {
+                sim: S::name().to_string(),
+                property: property.clone(),
+                invariant: "no-process-crash".into(),
+                signature: format!("worker process died: {st}"),
+                detail: format!("run {idx} killed the worker process ({st}): the code under test aborted (allocation failure, stack overflow or a signal)"),
+                seed,
+                index: idx,
+                tier: tier.as_str().to_string(),
+                original_ops_hint: String::new(),
+                script,
+                tape: vec![],
+                log_hash: String::new(),
+                log: vec![],
+                regenerate_tape: true,
+            };
+            std::fs::write(&path, serde_json::to_vec_pretty(&rf).unwrap()).ok();
+            if let Some(f) = crashes.iter_mut().find(|f| f.v.signature == rf.signature) {
+                f.occurrences += 1;
+            } else {
+                crashes.push(FoundViolation {
+                    v: Violation { property: property.clone(), invariant: rf.invariant.clone(), signature: rf.signature.clone(), detail: rf.detail.clone() },
+                    seed,
+                    index: idx,
+                    replay: path.to_string_lossy().to_string(),
+                    occurrences: 1,
+                    replay_exact: true,
+                });
+            }
+        }
+        respawns += 1;
+        if respawns > 48 {
+            break;
+        }
+        let limit = if is_det { det_k } else { runs };
+        if idx + stride < limit {
+            let out2 = work.join(format!("respawn-{respawns}.json"));
+            let child = spawn(idx + stride, stride, limit, &out2, det_k, is_det);
+            queue.push_back((child, out2, stride, is_det));
+        }
     }
-    let det = parts.pop().unwrap();
+    let had_crashes = !crashes.is_empty() || respawns > 0;
+    let det = det_part.unwrap_or_default();
     // compare hashes
     let mut det_checked = 0u64;
     for p in &parts {
@@ -634,6 +713,7 @@ fn check<S: Sim>(a: &[String]) -> ! {
             match det.det_hashes.get(i) {
                 Some(h2) if h2 == h => det_checked += 1,
                 Some(h2) => harness_error(&format!("nondeterminism: run {i} gave event-log hash {h} and {h2} in two processes")),
+                None if had_crashes => {}
                 None => harness_error("determinism re-run is missing a case"),
             }
         }
@@ -645,7 +725,7 @@ fn check<S: Sim>(a: &[String]) -> ! {
     let mut counters: BTreeMap<String, u64> = BTreeMap::new();
     let mut states: BTreeSet<String> = BTreeSet::new();
     let mut samples = Vec::new();
-    let mut found: Vec<FoundViolation> = Vec::new();
+    let mut found: Vec<FoundViolation> = crashes;
     let mut other: BTreeMap<String, u64> = BTreeMap::new();
     let mut all_hashes: Vec<u64> = Vec::new();
     let mut shrink_runs = 0;
@@ -770,7 +850,7 @@ fn check<S: Sim>(a: &[String]) -> ! {
         // sqlx's worker thread): the violation is real, its replay may need several attempts.
         println!("WARNING: a minimised case did not replay to the same event log twice in a row");
     }
-    if runs_done != runs {
+    if runs_done != runs && !had_crashes {
         harness_error(&format!("expected {runs} runs, workers did {runs_done}"));
     }
     std::process::exit(if n_viol > 0 { 1 } else { 0 })
